@@ -645,6 +645,18 @@ impl<'c> VisitMut for Rw<'c> {
 
     fn visit_expr_mut(&mut self, e: &mut Expr) {
         // ---------------- pre-order ----------------
+        // A1n: `now_or_never` applied to the un-awaited call of an eager (async) function polls that call's future ONCE: the call is named
+        // as a future value (`m__fut`, whose model says what one poll may already have done), never run to completion
+        {
+            let inner: Option<&mut Expr> = match e {
+                Expr::MethodCall(m) if m.method == "now_or_never" && m.args.is_empty() => Some(&mut *m.receiver),
+                Expr::Call(c) if c.args.len() == 1 && nospace(&c.func.to_token_stream().to_string()).ends_with("FutureExt::now_or_never") => c.args.first_mut(),
+                _ => None,
+            };
+            if let Some(x) = inner {
+                if let Some(n) = call_last_ident(x) { if (self.cx.unit.eager.contains(&n) || self.cx.unit.eagersync.contains(&n)) && matches!(x, Expr::MethodCall(_) | Expr::Call(_)) { rename_call(x, &format!("{}__fut", n)); self.cx.fire("A1n"); } }
+            }
+        }
         // G6: a lock guard that is a temporary of an `if let` / `match` / `while let` scrutinee lives for the whole statement; if the
         // arms await anything the lock is held across that await. The scrutinee is routed through `hx_guard_held_across_await`,
         // whose precondition is the obligation (never satisfiable: the shape itself is the defect)
